@@ -380,6 +380,15 @@ func initLibExternals() {
 			}
 			return out
 		},
+		"context.WithValue": func(fr *frame, a []value) value {
+			// the real function only adds a reflect-based comparability check of the key
+			cp := fr.i.prog.ImportedPackage("context")
+			t := cp.Type("valueCtx").Type()
+			var cell value = zero(t)
+			st := cell.(structure)
+			st[0], st[1], st[2] = a[0], a[1], a[2]
+			return iface{t: types.NewPointer(t), v: &cell}
+		},
 		"crypto/sha256.Sum256": func(fr *frame, a []value) value {
 			in := fr.i.concStr(bytesToStr(a[0].([]value)), "sha256 input")
 			sum := sha256.Sum256([]byte(in))
